@@ -83,6 +83,7 @@ class Ctx(object):
         self.sym = set(sym)
         self.n = 0
         self.scalar_tags = scalar_tags
+        self.fresh_leaves = {}     # first letter of tag -> [leaf, ...]
 
     def fresh(self, kind, tag):
         self.n += 1
@@ -91,18 +92,22 @@ class Ctx(object):
     def ec(self, tag):
         """execution_count: null or int."""
         if "ec" in self.sym:
-            return self.E.scalar(self.fresh("ec", tag), tags=(V.NULL, V.INT), lo=0)
+            return self._rec(tag, self.E.scalar(self.fresh("ec", tag), tags=(V.NULL, V.INT), lo=0))
         return None
+
+    def _rec(self, tag, leaf):
+        self.fresh_leaves.setdefault(tag[0], []).append(leaf)
+        return leaf
 
     def md(self, tag):
         """a metadata value: any JSON scalar."""
         if "md" in self.sym:
-            return self.E.scalar(self.fresh("md", tag), tags=self.scalar_tags)
+            return self._rec(tag, self.E.scalar(self.fresh("md", tag), tags=self.scalar_tags))
         return 7
 
     def num(self, tag):
         if "json" in self.sym:
-            return self.E.scalar(self.fresh("js", tag), tags=self.scalar_tags)
+            return self._rec(tag, self.E.scalar(self.fresh("js", tag), tags=self.scalar_tags))
         return 3
 
 
